@@ -8,6 +8,8 @@ use serde::{Deserialize, Serialize};
 
 mod ext_lat;
 mod hours;
+#[cfg(feature = "verif-hooks")]
+pub mod verif_hooks;
 
 use std::{
     collections::{BTreeMap, HashMap},
@@ -138,6 +140,8 @@ pub fn prayer_times_dt_rng_block(
     } else {
         1
     };
+    #[cfg(feature = "verif-hooks")]
+    let avail_pll = verif_hooks::parallelism(avail_pll);
     let no_parallelism = date_range.num_days() / avail_pll < min_days_for_pll;
 
     // No parallelism.
@@ -150,25 +154,55 @@ pub fn prayer_times_dt_rng_block(
 
             // Spawn thread to combine prayer times for each date range.
             let handle = s.spawn(move || {
+                #[cfg(feature = "verif-hooks")]
+                verif_hooks::sched_point("collector_start", 0);
+                #[cfg(feature = "verif-hooks")]
+                let mut vh_recv = 0usize;
                 let mut times = BTreeMap::new();
                 while let Ok(mut partial_times) = rx.recv() {
+                    #[cfg(feature = "verif-hooks")]
+                    {
+                        verif_hooks::sched_point("after_recv", vh_recv);
+                        vh_recv += 1;
+                    }
                     times.append(&mut partial_times);
                 }
+                #[cfg(feature = "verif-hooks")]
+                verif_hooks::sched_point("collector_end", vh_recv);
                 times
             });
 
             // Spawn threads to calculate prayer times for each date range.
             let date_ranges = date_range.partition(avail_pll);
+            #[cfg(feature = "verif-hooks")]
+            let mut vh_idx = 0usize;
             for date_range in date_ranges {
+                #[cfg(feature = "verif-hooks")]
+                let vh_worker = vh_idx;
+                #[cfg(feature = "verif-hooks")]
+                {
+                    verif_hooks::sched_point("before_spawn", vh_worker);
+                    vh_idx += 1;
+                }
                 let tx = tx.clone();
                 s.spawn(move || {
+                    #[cfg(feature = "verif-hooks")]
+                    verif_hooks::sched_point("worker_start", vh_worker);
                     let partial_times = prayer_times_dt_rng(params, location, &date_range);
+                    #[cfg(feature = "verif-hooks")]
+                    verif_hooks::sched_point("before_send", vh_worker);
                     tx.send(partial_times).unwrap();
+                    #[cfg(feature = "verif-hooks")]
+                    verif_hooks::sched_point("after_send", vh_worker);
                 });
             }
 
             // Close channel to terminate blocking channel receive loop.
+            #[cfg(feature = "verif-hooks")]
+            verif_hooks::sched_point("before_drop_tx", vh_idx);
             drop(tx);
+            #[cfg(feature = "verif-hooks")]
+            verif_hooks::sched_point("before_join", vh_idx);
 
             handle.join().unwrap()
         })
